@@ -2,7 +2,9 @@
 
 Input : [flavour, workers, mkRaise, intr, mfaults, tb, schedule]
         flavour = 'suite' (ConcurrentTestSuite) | 'stream' (ConcurrentStreamTestSuite)
-        worker  = [tests, boom, faults]   tests = [[kind, [tag..]]..]; boom: run() raises after the tests;
+        worker  = [tests, boom, faults]   tests = [[kind, [tag..]] | [kind, [tag..], [event..]] ..]; boom: run() raises after the tests;
+                  a test with a third component is (stream flavour) a native emitter: run(result) calls result.status(...) once per
+                  event = [id, ['st', status] | ['file', eof], None | ['some', [tag..]], 'omitted' | 'explicitNone' | ['given', n]]
                   faults (suite): indices of this worker's calls on the caller's result that raise
         mkRaise = None | ['some', k]   make_tests raises after yielding k sub-suites
         intr    = None | ['some', m]   main's m-th queue.get() is interrupted (KeyboardInterrupt subclass)
@@ -12,11 +14,13 @@ Input : [flavour, workers, mkRaise, intr, mfaults, tb, schedule]
 Trace : [log, sink, result, spawned, joined, live, runs, flags, died, finished]      (TTV/Drv/C13.lean)
 The real suites run with testtools.testsuite.Queue / .threading replaced by the scheduler's doubles.
 """
-import types, unittest
+import datetime, types, unittest
 from harness.core import Prop, some
 from harness import sched as S
 from harness.props.c12 import Target, ADD, KINDS, schedules
 
+STATUSES = ['inprogress', 'success', 'fail', 'skip', 'xfail', 'uxsuccess', 'exists']
+EPOCH = datetime.datetime(1970, 1, 1, tzinfo=datetime.timezone.utc)
 STATUS = {'success': 'success', 'error': 'fail', 'failure': 'fail', 'skip': 'skip', 'xfail': 'xfail', 'uxsuccess': 'uxsuccess'}
 
 
@@ -35,17 +39,46 @@ class WorkerBoom(Exception):
 class Worker:
     """a hashable TestCase-like sub-suite: runs its placeholder tests, then raises if `boom`"""
 
-    def __init__(self, n, tests, boom):
-        self.n, self.tests, self.boom, self.runs, self.result = n, tests, boom, 0, None
+    def __init__(self, n, tests, boom, stream=False):
+        self.n, self.tests, self.boom, self.runs, self.result, self.stream = n, tests, boom, 0, None, stream
 
     def run(self, result):
         from testtools import PlaceHolder
         self.runs += 1
         self.result = result
-        for j, (kind, tags) in enumerate(self.tests):
-            PlaceHolder('t%d' % j, outcome=ADD[kind], tags=set(tags)).run(result)
+        for j, t in enumerate(self.tests):
+            if len(t) == 3 and self.stream:
+                for ev in t[2]:
+                    result.status(**native_kwargs(ev))      # a test that speaks the stream protocol itself
+            else:
+                PlaceHolder('t%d' % j, outcome=ADD[t[0]], tags=set(t[1])).run(result)
         if self.boom:
             raise WorkerBoom('runner broke')
+
+
+def native_kwargs(ev):
+    i, kind, tags, ts = ev
+    kw = {'test_id': 't%d' % i}
+    if kind[0] == 'st':
+        kw['test_status'] = kind[1]
+    else:
+        kw.update(file_name='log', file_bytes=b'chunk', eof=bool(kind[1]), mime_type='text/plain; charset=utf8')
+    if tags is not None:
+        kw['test_tags'] = set(tags[1])
+    if ts == 'explicitNone':
+        kw['timestamp'] = None
+    elif ts != 'omitted':
+        kw['timestamp'] = EPOCH + datetime.timedelta(seconds=ts[1])
+    return kw
+
+
+def canon_instant(ts):
+    """['some', n] for a time stamp the emitter chose (EPOCH + n s), None for the wall clock (or no time stamp at all)"""
+    if isinstance(ts, datetime.datetime) and ts.tzinfo is not None:
+        d = (ts - EPOCH).total_seconds()
+        if 0 <= d < 10 ** 6 and d == int(d):
+            return some(int(d))
+    return None
 
 
 class Sink:
@@ -71,7 +104,8 @@ class Sink:
         except (TypeError, ValueError):
             w = 99999
         kind = ['file', bool(eof)] if file_name is not None else ['st', test_status if test_status is not None else 'nostatus']
-        self.events.append([[w, tid, kind], timestamp is not None, r])
+        tags = None if test_tags is None else some(sorted(test_tags))
+        self.events.append([[w, tid, kind, tags, canon_instant(timestamp)], isinstance(timestamp, datetime.datetime), r])
         if r:
             raise S.Injected('injected fault')
 
@@ -95,8 +129,10 @@ class C13(Prop):
     id = 'C13'
     budgets = {'quick': 2200, 'thorough': 26000}
     time_limit = {'quick': 45, 'thorough': 540}
-    rule = ('ConcurrentTestSuite / ConcurrentStreamTestSuite (half each) over 0-4 hashable workers running 0-3 PlaceHolder tests of arbitrary outcome '
-            '(suite flavour: with tags), workers raising from run(), worker-side faults of the caller\'s TestResult (suite), make_tests raising after k sub-suites, '
+    rule = ('ConcurrentTestSuite / ConcurrentStreamTestSuite (half each) over 0-4 hashable workers running 0-3 tests: PlaceHolder tests of arbitrary outcome '
+            'with tags, and - stream flavour, 40 % of the tests - native stream emitters whose run(result) calls result.status() for 0-3 scripted events '
+            '(test id, any status / file chunk with or without eof, test_tags absent / empty / given, timestamp keyword omitted / None / a given instant); '
+            'workers raising from run(), worker-side faults of the caller\'s TestResult (suite), make_tests raising after k sub-suites, '
             'an interrupt at main\'s m-th queue.get(), the caller\'s result raising at main\'s j-th call (stream: status; suite: stop in the abort path); '
             'schedules: quick = every schedule with <= 2 pre-emptions of 6 small base configurations + random / bursty / few-pre-emption schedules of random '
             'configurations; thorough adds every schedule with <= 2 pre-emptions for 2 workers x 2 tests, <= 1 for 3 workers, and every single fault position / interrupt position / make_tests failure position (<= 1 pre-emption). non-trivial = at least 2 workers started; '
@@ -113,7 +149,8 @@ class C13(Prop):
                 'TestResult, make_tests failing after k sub-suites, an interrupt at any queue.get(), the caller\'s result raising at any call of run()\'s thread) and every '
                 'schedule (arbitrary list of thread ids, unbounded), for both ConcurrentTestSuite and ConcurrentStreamTestSuite: no reachable state is stuck and every run ends '
                 '(run() returns or raises, every started thread ends); on normal return every sub-suite was started, ran once, has terminated and every event it emitted reached '
-                'the caller\'s result exactly once in that worker\'s order (stream: with its route code; suite: one whole well-shaped block at a time - C12\'s invariant incl. '
+                'the caller\'s result exactly once in that worker\'s order (stream: with its route code and a time stamp - the emitter\'s own instant if it gave one, '
+                'for TestResult-API tests and for tests that call result.status() themselves; suite: one whole well-shaped block at a time - C12\'s invariant incl. '
                 'main\'s stop() calls); on abort what was delivered is still a prefix per worker; a raising sub-suite yields exactly one errored broken-runner test; if run() '
                 'raises the exception is the injected one and every registered worker is told to stop (suite: one stop() per registered worker; stream: its shouldStop is set and '
                 'no later step clears it, because run() forwards the worker\'s startTestRun itself before starting the thread). The hand-written model is tied to the code by a '
@@ -146,7 +183,7 @@ class C13(Prop):
         sch = S.Scheduler(schedule)
         log = []
         sem = S.SchedSemaphore(sch, log)
-        workers = [Worker(n, w[0], w[1]) for n, w in enumerate(wspecs)]
+        workers = [Worker(n, w[0], w[1], flavour == 'stream') for n, w in enumerate(wspecs)]
         faults = {0: set(mfaults)}
         for n, w in enumerate(wspecs):
             faults[n + 1] = set(w[2])
@@ -235,8 +272,18 @@ class C13(Prop):
         return tuple(sch.picks.count(i) for i in range(len(inp[1]) + 1))
 
     # ----- generators
+    def gen_event(self, rng):
+        kind = ['st', rng.choice(STATUSES)] if rng.random() < 0.7 else ['file', rng.random() < 0.5]
+        tags = rng.choice([None, None, some([]), some(sorted(rng.sample(range(4), rng.choice([1, 2]))))])
+        ts = rng.choice(['omitted', 'explicitNone', 'explicitNone', ['given', rng.randrange(50)], ['given', rng.randrange(50)]])
+        return [rng.randrange(3), kind, tags, ts]
+
     def gen_worker(self, rng, flavour, fault_p):
         tests = [[rng.choice(KINDS), sorted(rng.sample(range(4), rng.choice([0, 0, 0, 1, 2])))] for _ in range(rng.choice([0, 1, 1, 2, 2, 3]))]
+        if flavour == 'stream':
+            for t in tests:
+                if rng.random() < 0.4:      # a test that emits stream events itself
+                    t.append([self.gen_event(rng) for _ in range(rng.choice([0, 1, 2, 2, 3]))])
         boom = rng.random() < 0.25
         faults = []
         if flavour == 'suite' and rng.random() < fault_p:
@@ -296,6 +343,9 @@ class C13(Prop):
             ['stream', [[[t()], False, []], [[t('failure')], False, []]], None, None, [2], tb],
             ['stream', [[[t()], False, []], [[], False, []]], some(2), None, [], tb],
             ['suite', [[[t('xfail')], False, [1]], [[t()], False, []]], some(2), None, [0], tb],
+            ['stream', [[[t('success', [2])], False, []],
+                        [[['success', [], [[0, ['st', 'inprogress'], None, 'explicitNone'], [0, ['file', True], some([1]), ['given', 7]],
+                                           [0, ['st', 'success'], some([]), 'omitted']]]], True, []]], None, None, [], tb],
         ]
 
     def systematic(self, configs, k):
@@ -338,6 +388,10 @@ class C13(Prop):
                  ['stream', [[[t()], False, []], [[t('failure')], False, []], [[], True, []]], None, None, [], tb]]
         yield from self.systematic(three, 1)
         # every single fault position for 2 workers, <= 1 pre-emption
+        native = ['stream', [[[t('success', [2])], False, []],
+                             [[['success', [], [[0, ['st', 'inprogress'], None, 'explicitNone'], [0, ['file', True], some([1]), ['given', 7]],
+                                                [1, ['st', 'exists'], some([]), 'omitted']]]], True, []]], None, None, [], tb]
+        yield from self.systematic([native], 2)
         small_suite = ['suite', [[[t()], False, []], [[t('error')], True, []]], None, None, [], tb]
         small_stream = ['stream', [[[t()], False, []], [[t('error')], True, []]], None, None, [], tb]
         for f in range(12):                       # the caller's StreamResult raises at main's f-th status call
@@ -360,6 +414,13 @@ class C13(Prop):
     def features(self, inp, trace):
         flavour, workers, mk, intr, mfaults, tb, schedule = inp
         f = ['flavour=' + flavour, 'workers=%d' % len(workers), 'tests=%s' % min(sum(len(w[0]) for w in workers), 7)]
+        nat = [ev for w in workers for t in w[0] if len(t) == 3 for ev in t[2]]
+        if flavour == 'stream' and any(len(t) == 3 for w in workers for t in w[0]):
+            f.append('native-emitter')
+            f.append('native-events=%s' % min(len(nat), 6))
+            for ev in nat:
+                f.append('native-ts:' + (ev[3] if isinstance(ev[3], str) else 'given'))
+                f.append('native-kind:' + (ev[1][1] if ev[1][0] == 'st' else 'file'))
         if any(w[1] for w in workers):
             f.append('boom-worker')
         if any(w[2] for w in workers):
@@ -394,6 +455,10 @@ class C13(Prop):
                 if any(e[1] == 'call' and e[3] for e in trace[0]):
                     f.append('target-raised')
             else:
+                if any(e[0][4] is not None for e in trace[1]):
+                    f.append('delivered-given-instant')
+                if any(not e[1] for e in trace[1]):
+                    f.append('DELIVERED-WITHOUT-TIMESTAMP')
                 ws = [e[0][0] for e in trace[1]]
                 sw = sum(1 for a, b in zip(ws, ws[1:]) if a != b)
                 f.append('sink-switches=%s' % (sw if sw < 6 else '6+'))
@@ -416,8 +481,19 @@ class C13(Prop):
             rest = lambda nw: [flavour, workers[:i] + [nw] + workers[i + 1:], mk, intr, mfaults, tb, schedule]
             for j in range(len(w[0])):
                 yield rest([w[0][:j] + w[0][j + 1:], w[1], w[2]])
+                if len(w[0][j]) == 3:             # native emitter: fewer / plainer events, or an API test instead
+                    t = w[0][j]
+                    repl = lambda nt: rest([w[0][:j] + [nt] + w[0][j + 1:], w[1], w[2]])
+                    yield repl(t[:2])
+                    for k in range(len(t[2])):
+                        yield repl([t[0], t[1], t[2][:k] + t[2][k + 1:]])
+                        ev = t[2][k]
+                        if ev[2] is not None:
+                            yield repl([t[0], t[1], t[2][:k] + [[ev[0], ev[1], None, ev[3]]] + t[2][k + 1:]])
+                        if ev[3] != 'omitted' and ev[3] != 'explicitNone':
+                            yield repl([t[0], t[1], t[2][:k] + [[ev[0], ev[1], ev[2], 'omitted']] + t[2][k + 1:]])
                 if w[0][j][1]:
-                    yield rest([w[0][:j] + [[w[0][j][0], []]] + w[0][j + 1:], w[1], w[2]])
+                    yield rest([w[0][:j] + [[w[0][j][0], []] + w[0][j][2:]] + w[0][j + 1:], w[1], w[2]])
             if w[1]:
                 yield rest([w[0], False, w[2]])
             for j in range(len(w[2])):
